@@ -15,7 +15,8 @@ Laws (oracles)
     that does not use the library's __eq__/__hash__; equal => equal hash;
  3  e.func(*e.args) == e when all fields are SymPy arguments (with the attributes passed
     as keywords otherwise);
- 4  printable folded form: lambdify(e) == lambdify(e.doit()), cse off/on; otherwise
+ 4  printable folded form: lambdify(e) == lambdify(e.doit()), cse off/on, and (4c) equal to
+    the code of the same class with its compound arguments abstracted into symbols; otherwise
     lambdify(e.doit()) with cse off == cse on == exact evaluation of e.doit() (scalar
     classes) / == event-by-event evaluation (array classes).
 """
@@ -266,7 +267,7 @@ class Recorder:
         tags = [f"law:{law}", f"class:{self.cls_name}", *extra]
         if known:
             tags.append(KNOWN_TAG)
-        if law == "4" and self.sum_in_implementation:
+        if law in {"4", "4c"} and self.sum_in_implementation:
             tags.append(SUM_TAG)
         self.viol.append({
             "msg": f"law {law}: {msg} [{R.describe(desc)}]",
@@ -350,6 +351,49 @@ def _all_close(arrays: list):
     return "equal"
 
 
+def check_compositional(rec: Recorder, e, info, desc, seed: int, known: bool, value) -> None:
+    """Law 4c: code generation commutes with abstraction of an argument: replacing every
+    compound scalar argument a_k by a fresh symbol that is fed the numeric value of a_k must
+    give the same numbers (catches printers that paste argument code into a larger
+    expression without regard to operator precedence)."""
+    import numpy as np  # noqa: PLC0415
+    import sympy as sp  # noqa: PLC0415
+    from sympy.tensor.array.expressions.array_expressions import ArraySymbol  # noqa: PLC0415
+
+    new_args, overrides = [], {}
+    for k, a in enumerate(e.args):
+        new_args.append(a)
+        if not isinstance(a, sp.Basic) or a.is_Symbol or a.is_Number or isinstance(a, ArraySymbol):
+            continue
+        r = R.np_values([a.doit()], seed)
+        if r[0] != "ok":
+            continue
+        v = r[1][0]
+        if isinstance(v, (int, np.integer)) or np.shape(v) not in {(), (R.N_EVENTS,)}:
+            continue
+        name = f"abstracted{k}"
+        new_args[-1] = sp.Symbol(name)
+        overrides[name] = np.asarray(v, dtype=complex)
+    if not overrides:
+        return
+    try:
+        abstract = e.func(*new_args)
+    except Exception:  # noqa: BLE001
+        return
+    rec.n_eval += 1
+    r = R.np_values([abstract], seed, overrides=overrides)
+    if r[0] != "ok":
+        rec.out("law4c:abstraction-not-evaluable")
+        return
+    verdict = _all_close([r[1][0], value])
+    if verdict == "differ":
+        rec.bad("4c", f"lambdify(folded) = {_short(value, 120)} but with the compound arguments"
+                      f" {sorted(overrides)} replaced by symbols carrying their values the same printer gives"
+                      f" {_short(r[1][0], 120)}", desc, known, ["compositional"])
+    else:
+        rec.out(f"law4c:printing-commutes-with-abstraction-{verdict}")
+
+
 def check_law4(rec: Recorder, e, ed, info, desc, seed: int, known: bool) -> None:
     import numpy as np  # noqa: PLC0415
 
@@ -409,6 +453,8 @@ def check_law4(rec: Recorder, e, ed, info, desc, seed: int, known: bool) -> None
     else:
         rec.out(f"law4:{label}")
     ref = vals["unfolded", False][1][0]
+    if "folded" in forms and info.unevaluated:
+        check_compositional(rec, e, info, desc, seed, known, vals["folded", False][1][0])
     # reference that does not go through the NumPy printer
     ex = R.exact_values(ed, seed, n_points=R.N_EVENTS)
     rec.n_eval += 1
